@@ -106,50 +106,58 @@ type World struct {
 
 // Spec holds the drawn genesis parameters (plain data so that it can be logged).
 type Spec struct {
-	NEntities        int         `json:"entities"`
-	NodesPerEntity   []int       `json:"nodes_per_entity"`
-	NodeRoles        [][]int     `json:"node_roles"` // per entity, per node: 1 validator, 2 compute, 3 both
-	NUsers           int         `json:"users"`
-	EpochInterval    int64       `json:"epoch_interval"`
-	DebondingIv      uint64      `json:"debonding_interval"`
-	MaxNodeExp       uint64      `json:"max_node_expiration"`
-	MaxValidators    int         `json:"max_validators"`
-	MaxValPerEntity  int         `json:"max_validators_per_entity"`
-	VotingPowerSqrt  bool        `json:"voting_power_sqrt"`
-	SelfStake        []uint64    `json:"self_stake"`   // per entity, base units escrowed to itself
-	SelfShares       []uint64    `json:"self_shares"`  // per entity, shares for that stake (ratio != 1 allowed)
-	General          []uint64    `json:"general"`      // per entity general balance
-	UserBalance      []uint64    `json:"user_balance"` // per user
-	CommonPool       uint64      `json:"common_pool"`
-	LastBlockFees    uint64      `json:"last_block_fees"`
-	GovDeposits      uint64      `json:"governance_deposits"`
-	ThresholdEntity  uint64      `json:"threshold_entity"`
-	ThresholdNode    uint64      `json:"threshold_node"`
-	FeeWeights       [3]uint64   `json:"fee_weights"`
-	RewardScale      uint64      `json:"reward_scale"`
-	RewardProposed   uint64      `json:"reward_factor_proposed"`
-	RewardSigned     uint64      `json:"reward_factor_signed"`
-	SlashAmount      uint64      `json:"slash_amount"`
-	SlashFreeze      uint64      `json:"slash_freeze"`
-	MinTransact      uint64      `json:"min_transact_balance"`
-	MinTransfer      uint64      `json:"min_transfer"`
-	MinDelegation    uint64      `json:"min_delegation"`
-	MaxAllowances    uint32      `json:"max_allowances"`
-	GasTxByte        uint64      `json:"gas_tx_byte"`
-	GasOp            uint64      `json:"gas_op"`
-	MaxBlockGas      uint64      `json:"max_block_gas"`
-	MaxTxSize        uint64      `json:"max_tx_size"`
-	GovVotingPeriod  uint64      `json:"gov_voting_period"`
-	GovStakeThresh   uint8       `json:"gov_stake_threshold"`
-	GovMinDeposit    uint64      `json:"gov_min_deposit"`
-	CommissionBound  bool        `json:"commission_bounds"`
-	MinCommission    uint64      `json:"min_commission_rate"`
-	WithRuntime      bool        `json:"with_runtime"`
-	RtGroup          uint16      `json:"rt_group"`
-	RtBackup         uint16      `json:"rt_backup"`
+	NEntities       int       `json:"entities"`
+	NodesPerEntity  []int     `json:"nodes_per_entity"`
+	NodeRoles       [][]int   `json:"node_roles"` // per entity, per node: 1 validator, 2 compute, 3 both
+	NUsers          int       `json:"users"`
+	EpochInterval   int64     `json:"epoch_interval"`
+	DebondingIv     uint64    `json:"debonding_interval"`
+	MaxNodeExp      uint64    `json:"max_node_expiration"`
+	MaxValidators   int       `json:"max_validators"`
+	MaxValPerEntity int       `json:"max_validators_per_entity"`
+	VotingPowerSqrt bool      `json:"voting_power_sqrt"`
+	SelfStake       []uint64  `json:"self_stake"`   // per entity, base units escrowed to itself
+	SelfShares      []uint64  `json:"self_shares"`  // per entity, shares for that stake (ratio != 1 allowed)
+	General         []uint64  `json:"general"`      // per entity general balance
+	UserBalance     []uint64  `json:"user_balance"` // per user
+	CommonPool      uint64    `json:"common_pool"`
+	LastBlockFees   uint64    `json:"last_block_fees"`
+	GovDeposits     uint64    `json:"governance_deposits"`
+	ThresholdEntity uint64    `json:"threshold_entity"`
+	ThresholdNode   uint64    `json:"threshold_node"`
+	FeeWeights      [3]uint64 `json:"fee_weights"`
+	RewardScale     uint64    `json:"reward_scale"`
+	RewardProposed  uint64    `json:"reward_factor_proposed"`
+	RewardSigned    uint64    `json:"reward_factor_signed"`
+	SlashAmount     uint64    `json:"slash_amount"`
+	SlashFreeze     uint64    `json:"slash_freeze"`
+	MinTransact     uint64    `json:"min_transact_balance"`
+	MinTransfer     uint64    `json:"min_transfer"`
+	MinDelegation   uint64    `json:"min_delegation"`
+	MaxAllowances   uint32    `json:"max_allowances"`
+	GasTxByte       uint64    `json:"gas_tx_byte"`
+	GasOp           uint64    `json:"gas_op"`
+	MaxBlockGas     uint64    `json:"max_block_gas"`
+	MaxTxSize       uint64    `json:"max_tx_size"`
+	GovVotingPeriod uint64    `json:"gov_voting_period"`
+	GovStakeThresh  uint8     `json:"gov_stake_threshold"`
+	GovMinDeposit   uint64    `json:"gov_min_deposit"`
+	CommissionBound bool      `json:"commission_bounds"`
+	MinCommission   uint64    `json:"min_commission_rate"`
+	WithRuntime     bool      `json:"with_runtime"`
+	RtGroup         uint16    `json:"rt_group"`
+	RtBackup        uint16    `json:"rt_backup"`
+	// scheduling constraints of the runtime: per-entity node cap (0 = none), minimum pool size above the group size,
+	// validator-set membership of the node's entity
+	RtMaxNodes       uint16      `json:"rt_max_nodes"`
+	RtMinPoolExtra   uint16      `json:"rt_min_pool_extra"`
+	RtValidatorSet   bool        `json:"rt_validator_set"`
 	RtStragglers     uint16      `json:"rt_stragglers"`
 	RtRoundTimeout   int64       `json:"rt_round_timeout"`
 	WithVault        bool        `json:"with_vault"`
+	// GenesisVaults: per vault {balance, withdraw limit amount, limit interval} of vaults that exist from genesis
+	// (created by user 0, admins users 0 and 1, every user up to the fourth holds the withdraw policy).
+	GenesisVaults [][3]uint64 `json:"genesis_vaults"`
 	CrossDelegations [][3]uint64 `json:"cross_delegations"` // (from user idx, to entity idx, amount)
 	Debonding        [][3]uint64 `json:"debonding"`         // (from user idx, to entity idx, amount) at epoch base+1..
 }
@@ -377,6 +385,31 @@ func BuildGenesis(spec *Spec) (*World, error) {
 		a.General.Balance = q(spec.UserBalance[i])
 		_ = total.Add(&a.General.Balance)
 	}
+	if spec.WithVault && len(w.Users) > 0 {
+		creator := staking.NewAddress(w.Users[0].Public())
+		admins := []staking.Address{creator}
+		if len(w.Users) > 1 {
+			admins = append(admins, staking.NewAddress(w.Users[1].Public()))
+		}
+		for i, gv := range spec.GenesisVaults {
+			vl := &vault.Vault{Creator: creator, ID: uint64(i), State: vault.StateActive,
+				AdminAuthority:   vault.Authority{Addresses: admins, Threshold: 1},
+				SuspendAuthority: vault.Authority{Addresses: []staking.Address{creator}, Threshold: 1}}
+			doc.Vault.Vaults = append(doc.Vault.Vaults, vl)
+			va := acct(vl.Address())
+			va.General.Balance = q(gv[0])
+			va.General.Hooks = map[staking.HookKind]staking.HookDestination{staking.HookKindWithdraw: {Module: vault.ModuleName}}
+			_ = total.Add(&va.General.Balance)
+			if doc.Vault.States == nil {
+				doc.Vault.States = map[staking.Address]map[staking.Address]*vault.AddressState{}
+			}
+			doc.Vault.States[vl.Address()] = map[staking.Address]*vault.AddressState{}
+			for k := 0; k < len(w.Users) && k < 4; k++ {
+				doc.Vault.States[vl.Address()][staking.NewAddress(w.Users[k].Public())] = &vault.AddressState{
+					WithdrawPolicy: vault.WithdrawPolicy{LimitAmount: q(gv[1]), LimitInterval: gv[2]}}
+			}
+		}
+	}
 	// cross delegations: the user's stake is deposited at the pool's current price, exactly as AddEscrow does
 	for _, cd := range spec.CrossDelegations {
 		u, e, amount := int(cd[0]), int(cd[1]), cd[2]
@@ -463,8 +496,8 @@ func BuildGenesis(spec *Spec) (*World, error) {
 			AdmissionPolicy: registry.RuntimeAdmissionPolicy{AnyNode: &registry.AnyNodeRuntimeAdmissionPolicy{}},
 			Constraints: map[scheduler.CommitteeKind]map[scheduler.Role]registry.SchedulingConstraints{
 				scheduler.KindComputeExecutor: {
-					scheduler.RoleWorker:       {MinPoolSize: &registry.MinPoolSizeConstraint{Limit: spec.RtGroup}},
-					scheduler.RoleBackupWorker: {MinPoolSize: &registry.MinPoolSizeConstraint{Limit: spec.RtBackup}},
+					scheduler.RoleWorker:       constraints(spec, spec.RtGroup),
+					scheduler.RoleBackupWorker: constraints(spec, spec.RtBackup),
 				},
 			},
 			GovernanceModel: registry.GovernanceEntity,
@@ -497,6 +530,17 @@ func BuildGenesis(spec *Spec) (*World, error) {
 }
 
 func cborV(v uint16) cbor.Versioned { return cbor.NewVersioned(v) }
+
+func constraints(spec *Spec, group uint16) registry.SchedulingConstraints {
+	c := registry.SchedulingConstraints{MinPoolSize: &registry.MinPoolSizeConstraint{Limit: group + spec.RtMinPoolExtra}}
+	if spec.RtMaxNodes > 0 {
+		c.MaxNodes = &registry.MaxNodesConstraint{Limit: spec.RtMaxNodes}
+	}
+	if spec.RtValidatorSet {
+		c.ValidatorSet = &registry.ValidatorSetConstraint{}
+	}
+	return c
+}
 
 // RolesOf returns the role mask configured for a node in the spec (validator when unspecified).
 func (w *World) RolesOf(nk *NodeKeys) node.RolesMask {
